@@ -351,3 +351,48 @@ pub fn hash_str(s: &str) -> u64 {
     }
     h
 }
+
+// ---- (de)serialisation of outcomes for worker processes
+pub fn outcome_to_json(id: &str, o: &Outcome) -> Value {
+    let (verdict, detail): (&str, Value) = match &o.verdict {
+        Verdict::Held => ("held", Value::Null),
+        Verdict::Inconclusive(w) => ("inconclusive", json!(w)),
+        Verdict::Violated(vs) => ("violated", Value::Array(vs.iter().map(viol_json).collect())),
+    };
+    json!({"case": id, "verdict": verdict, "detail": detail, "nontrivial": o.nontrivial, "sig": o.sig.to_string(), "counters": o.counters, "sample": o.sample, "witness": o.witness})
+}
+pub fn outcome_from_json(v: &Value, prop: &'static str) -> Option<CaseResult> {
+    let id = v["case"].as_str()?.to_string();
+    let mut o = Outcome::new(v["sample"].clone());
+    o.nontrivial = v["nontrivial"].as_bool().unwrap_or(false);
+    o.sig = v["sig"].as_str().and_then(|s| s.parse().ok()).unwrap_or(0);
+    if let Some(c) = v["counters"].as_object() {
+        for (k, n) in c {
+            o.counters.insert(k.clone(), n.as_u64().unwrap_or(0));
+        }
+    }
+    o.witness = v["witness"].as_array().map(|a| a.iter().filter_map(|x| x.as_str().map(String::from)).collect()).unwrap_or_default();
+    match v["verdict"].as_str()? {
+        "held" => {}
+        "inconclusive" => o.verdict = Verdict::Inconclusive(v["detail"].as_str().unwrap_or("").to_string()),
+        _ => {
+            let vs = v["detail"].as_array().cloned().unwrap_or_default();
+            o.verdict = Verdict::Violated(
+                vs.iter()
+                    .map(|x| Viol {
+                        prop: match x["oracle"].as_str().unwrap_or("") {
+                            "PANIC" => "PANIC",
+                            _ => prop,
+                        },
+                        clause: x["clause"].as_str().unwrap_or("").to_string(),
+                        detail: x["detail"].as_str().unwrap_or("").to_string(),
+                        t_ms: x["t_ms"].as_u64().unwrap_or(0),
+                        node: x["node"].as_u64().unwrap_or(0) as u16,
+                        panic: None,
+                    })
+                    .collect(),
+            );
+        }
+    }
+    Some(CaseResult { id, out: o })
+}
